@@ -162,6 +162,20 @@ func runAPI(op string, args []string) string {
 		case "ReadFloat64":
 			v, p, err := rjson.ReadFloat64(data)
 			return okp(strconv.FormatUint(math.Float64bits(v), 10), p, err)
+		case "FloatArray":
+			// a decoder written against the public API: HandleArrayValues with a handler that reads every member with ReadFloat64
+			h := &floatArrayHandler{}
+			p, err := rjson.HandleArrayValues(data, h, bufferWith(parseStack(args[1])))
+			if h.failed {
+				return "herr"
+			}
+			if err != nil {
+				return fmtErr(err, p)
+			}
+			if len(h.bits) == 0 {
+				return fmt.Sprintf("ok - %d", p)
+			}
+			return fmt.Sprintf("ok %s %d", strings.Join(h.bits, ","), p)
 		case "ReadNull":
 			p, err := rjson.ReadNull(data)
 			return okp("-", p, err)
@@ -336,4 +350,19 @@ func okErr(impl string, keepVal bool) string {
 		return "err"
 	}
 	return impl
+}
+
+type floatArrayHandler struct {
+	bits   []string
+	failed bool
+}
+
+func (h *floatArrayHandler) HandleArrayValue(d []byte) (int, error) {
+	v, p, err := rjson.ReadFloat64(d)
+	if err != nil {
+		h.failed = true
+		return 0, err
+	}
+	h.bits = append(h.bits, strconv.FormatUint(math.Float64bits(v), 10))
+	return p, nil
 }
